@@ -648,3 +648,17 @@ SPECS.append(FucSpec(
     clause='_on_read, per call and for every parser outcome: nothing (wait), close (TLS hello on a plain port), one httperror, one redirect '
            'or one request event - never an error and a request together; rejected messages and the TLS hello release the parser; only '
            'the declared conversion error (ValueError from int()) can escape to the dispatcher'))
+
+
+# C14's guarantee ("for arbitrary bytes: wait or one valid error response, never a request for an incomplete or rejected message")
+# rests on the parser honouring the contract _on_read uses it by.  The parser's own contracts (written for C13) are therefore
+# obligations of C14 as well: a change inside the parser that breaks one of them is reported under both properties.
+import copy as _copy                              # noqa: E402
+from contracts import http_parser as _hp         # noqa: E402
+from pyvc.contract import CustomCheck as _CC     # noqa: E402
+for _s in _hp.SPECS:
+    if isinstance(_s, _CC):
+        continue
+    _c = _copy.copy(_s)
+    _c.prop = 'C14'
+    SPECS.append(_c)
